@@ -1,7 +1,7 @@
 from vlib.core import *
 
 META = dict(
-    level_text="Exact arithmetic (Mathlib Matrix, any linearly ordered field, R with Real.sqrt): an eigenpair of A'A with lambda = sigma^2 > 0 and unit v gives u = A(v/sigma) with |u| = 1, Av = sigma u, A'u = sigma v; orthonormal v_i give orthonormal u_i; the same for AA' (c16_triplets*); A'A and AA' are positive semidefinite and every Ritz value w.r.t. any basis is >= 0, so sqrt is applied to non-negative numbers (c16_psd, c16_nonneg_exact). State machine of PartialSVDSolver built on the generic inner-solver model Orch, for EVERY inner kernel behaviour, matrix, scalar type and history: singular_values() has r = compute()'s return value <= ncomp entries, matrix_U(k)/matrix_V(k) return min(k, r) columns whenever they return and do return when the cache was empty or long enough (c16_counts); values non-increasing given C18's sortedness of the final sort and monotone sqrt (c16_order); compute() never writes the eigenvector cache (c16_cache_never_invalidated), so 'factors describe the most recent compute()' is proved only when the cache was empty at that compute (c16_latest_partial, c16_latest_no_factor_history) and REFUTED in general with witnesses on the model (c16_latest_counterexample, c16_latest_assert_counterexample) that are replayed on the real class (finding F4). Finite/non-negative values at Float on rank-deficient input is false (finding F5, replayed). The model at exact arithmetic is tied to the matrix theorems (c16_operator, c16_model_triplet_tall/wide: the explicit loops are Mathlib mulVec; the computed side is a singular vector whenever the inner pair is a unit eigenpair), the final sort hypothesis is discharged from C18 for the source-translated argsort (c16_order_argsort), and with an empty cache the factors equal those of a fresh solver (c16_latest_equals_fresh, via C06 non-interference). Not proved: that the inner Lanczos solver returns genuine eigenpairs to tolerance (C01), rounding.",
+    level_text="Exact arithmetic (Mathlib Matrix, any linearly ordered field, R with Real.sqrt): an eigenpair of A'A with lambda = sigma^2 > 0 and unit v gives u = A(v/sigma) with |u| = 1, Av = sigma u, A'u = sigma v; orthonormal v_i give orthonormal u_i; the same for AA' (c16_triplets*); A'A and AA' are positive semidefinite and every Ritz value w.r.t. any basis is >= 0, so sqrt is applied to non-negative numbers (c16_psd, c16_nonneg_exact). State machine of PartialSVDSolver built on the generic inner-solver model Orch, for EVERY inner kernel behaviour, matrix, scalar type and history: singular_values() has r = compute()'s return value <= ncomp entries, matrix_U(k)/matrix_V(k) always return, with exactly min(k, r) columns (c16_counts); values non-increasing given C18's sortedness of the final sort and monotone sqrt(max(.,0)) (c16_order); every compute() empties the eigenvector cache (c16_cache_invalidated; repair d08c57f of finding F4), so 'factors describe the most recent compute()' holds at full strength for every history (c16_latest) and the factors equal those of a fresh solver (c16_latest_equals_fresh, via C06 non-interference); singular values are sqrt(max(lambda,0)) >= 0 and the computed factor's column for sigma = 0 is the zero vector (c16_nonneg, c16_zero_column, c16_sigma; repair a913b0d of finding F5; finiteness at Float rests on the bit-exact correspondence and the oracle on rank-deficient inputs). The model at exact arithmetic is tied to the matrix theorems (c16_operator, c16_model_triplet_tall/wide: the explicit loops are Mathlib mulVec; the computed side is a singular vector whenever the inner pair is a unit eigenpair), the final sort hypothesis is discharged from C18 for the source-translated argsort (c16_order_argsort). Not proved: that the inner Lanczos solver returns genuine eigenpairs to tolerance (C01), rounding.",
     note="Lean kernel + propext/Classical.choice/Quot.sound; Mathlib Data.Matrix.Mul, Analysis.Real.Sqrt; the inner SymEigsSolver is the generic Orch model (theorems quantify over all kernels; the driver replays the recorded results of the real inner solver through Orch with the source-translated argsort); correspondence is bit-exact (0 soft differences): every Eigen product (matrix_U/V computed side, perform_op) is checked in the harness against the explicit left-to-right loop of the same operands within the componentwise bound 8(d+2)eps(|B||x|)_i and the loop result is what is compared bitwise with the model (token prod=ok|BAD); NaN columns are canonicalised; eigen_assert is redefined to throw in this harness so that out-of-range blocks are observable",
     technique="Lean 4 proof (Mathlib matrix algebra; invariants over histories of a state machine generic in the inner kernels) + differential correspondence through friend access + long double Jacobi SVD oracle",
     design="§5 C16", harnesses=['c16'])
@@ -11,7 +11,7 @@ def run(tier, seed, replay=None):
     R.trusted = TRUSTED_COMMON + [
         'inner solver: modelled by Orch (all kernels); genuineness of the eigenpairs it returns is property C01, not assumed here except as hypotheses of c16_triplets*',
         'Eigen dense/sparse products (m_mat * X, m_mat.transpose() * X, gemv in perform_op): modelled as left-to-right loops; the real products are required to agree with those loops componentwise to 8(d+2) eps (|B||x|)_i (harness, token prod=ok)',
-        'IEEE sqrt is monotone and sqrt(x) is NaN exactly for x < 0 (used to carry c16_order to Float and to explain F5)']
+        'IEEE sqrt is monotone and finite, non-negative on finite non-negative arguments (used to carry c16_order and c16_nonneg to Float)']
     R.assumptions = ['matrix_U/matrix_V are called only after a compute() has returned (m_nconv is uninitialised before: reading it is undefined behaviour; the harness never does it)',
                      'k >= 0 in matrix_U(k)/matrix_V(k) (a negative k is an Eigen assertion)']
     if replay:
